@@ -42,7 +42,9 @@ import (
 	"sync"
 	"testing"
 
+	"github.com/bfenetworks/bfe/bfe_basic"
 	"github.com/bfenetworks/bfe/bfe_http"
+	"github.com/bfenetworks/bfe/bfe_module"
 	"github.com/bfenetworks/bfe/verifkit/vk"
 )
 
@@ -80,6 +82,7 @@ type c28req struct {
 	framing int
 	hasBody bool
 	beh     c28beh
+	verdict string
 }
 
 func (q *c28req) wire() string { return q.head + q.body }
@@ -96,17 +99,18 @@ type c28sym struct {
 	name    string
 	body    bool
 	framing int
+	verdict string // "" or "<point>.<verdict>": a module filter's answer for this request (family "verdict")
 }
 
 var c28symsAll = []c28sym{
-	{"G", false, c28fOK}, {"H", false, c28fOK}, {"PC", true, c28fOK}, {"PK", true, c28fOK}, {"EC", true, c28fOK},
-	{"PXhex", true, c28fBroken}, {"MF", false, c28fBroken}, {"OV", false, c28fBroken},
-	{"EK", true, c28fOK}, {"PKT", true, c28fOK}, {"HB", true, c28fOK}, {"G10K", false, c28fOK}, {"P10K", true, c28fOK},
-	{"GC", false, c28fOK}, {"BIGm1", true, c28fOK}, {"BIGpS", true, c28fOK}, {"EXhex", true, c28fBroken},
-	{"E0", false, c28fReject}, {"XP", false, c28fReject},
-	{"PXext", true, c28fOK}, {"PXcrlf", true, c28fBroken}, {"PXtr", true, c28fBroken},
-	{"MH", false, c28fBroken}, {"LU", false, c28fBroken}, {"CLbad", false, c28fBroken},
-	{"BIG0", true, c28fOK}, {"BIGp1", true, c28fOK}, {"BIGK", true, c28fOK}, {"E10", true, c28fOK},
+	{name: "G", body: false, framing: c28fOK}, {name: "H", body: false, framing: c28fOK}, {name: "PC", body: true, framing: c28fOK}, {name: "PK", body: true, framing: c28fOK}, {name: "EC", body: true, framing: c28fOK},
+	{name: "PXhex", body: true, framing: c28fBroken}, {name: "MF", body: false, framing: c28fBroken}, {name: "OV", body: false, framing: c28fBroken},
+	{name: "EK", body: true, framing: c28fOK}, {name: "PKT", body: true, framing: c28fOK}, {name: "HB", body: true, framing: c28fOK}, {name: "G10K", body: false, framing: c28fOK}, {name: "P10K", body: true, framing: c28fOK},
+	{name: "GC", body: false, framing: c28fOK}, {name: "BIGm1", body: true, framing: c28fOK}, {name: "BIGpS", body: true, framing: c28fOK}, {name: "EXhex", body: true, framing: c28fBroken},
+	{name: "E0", body: false, framing: c28fReject}, {name: "XP", body: false, framing: c28fReject},
+	{name: "PXext", body: true, framing: c28fOK}, {name: "PXcrlf", body: true, framing: c28fBroken}, {name: "PXtr", body: true, framing: c28fBroken},
+	{name: "MH", body: false, framing: c28fBroken}, {name: "LU", body: false, framing: c28fBroken}, {name: "CLbad", body: false, framing: c28fBroken},
+	{name: "BIG0", body: true, framing: c28fOK}, {name: "BIGp1", body: true, framing: c28fOK}, {name: "BIGK", body: true, framing: c28fOK}, {name: "E10", body: true, framing: c28fOK},
 }
 
 func c28symIdx(name string) int {
@@ -120,8 +124,12 @@ func c28symIdx(name string) int {
 
 // c28build renders request number i (1-based) for symbol s with backend behaviour b.
 func c28build(s c28sym, i int, b c28beh) *c28req {
-	q := &c28req{sym: s.name, framing: s.framing, hasBody: s.body, beh: b, method: "GET"}
+	q := &c28req{sym: s.name, framing: s.framing, hasBody: s.body, beh: b, method: "GET", verdict: s.verdict}
 	q.path = fmt.Sprintf("/r%d-%s", i, s.name)
+	if s.verdict != "" {
+		q.sym += "~" + s.verdict
+		q.path += "~" + s.verdict // read by the filters of the verdict server
+	}
 	sent := c28sentinel(i)
 	host := "Host: example.org\r\n"
 	line := func(m, proto string) string { q.method = m; return m + " " + q.path + " " + proto + "\r\n" }
@@ -257,9 +265,152 @@ func (q *c28req) cuts() []int {
 // scripted backend -------------------------------------------------------------------------------
 
 type c28transport struct {
-	mu   sync.Mutex
-	beh  map[string]c28beh
-	seen []string // "METHOD path" of every RoundTrip
+	mu     sync.Mutex
+	beh    map[string]c28beh
+	seen   []string // "METHOD path" of every RoundTrip
+	parsed []string // "METHOD path" of every request that entered ReverseProxy.ServeHTTP (verdict server only)
+}
+
+func (t *c28transport) Parsed() []string {
+	t.mu.Lock()
+	defer t.mu.Unlock()
+	return append([]string(nil), t.parsed...)
+}
+
+// ---- module verdicts ---------------------------------------------------------------------------
+//
+// The verdict server has one filter at every request-processing callback point. A filter acts
+// only on requests whose path ends in "~<point>.<verdict>" for its own point; everything else
+// goes on. Points: BL HandleBeforeLocation, FP HandleFoundProduct, AL HandleAfterLocation
+// (verdicts close / finish / response / redirect), FW HandleForward (finish), RR
+// HandleReadResponse (finish / redirect), RF HandleRequestFinish (finish).
+
+var c28cur struct {
+	mu sync.Mutex
+	tr *c28transport
+}
+
+func c28verdictOf(path, point string) string {
+	i := strings.LastIndex(path, "~")
+	if i < 0 {
+		return ""
+	}
+	pv := strings.SplitN(path[i+1:], ".", 2)
+	if len(pv) != 2 || pv[0] != point {
+		return ""
+	}
+	return pv[1]
+}
+
+func c28installFilters(srv *BfeServer) {
+	reqFilter := func(point string) func(req *bfe_basic.Request) (int, *bfe_http.Response) {
+		return func(req *bfe_basic.Request) (int, *bfe_http.Response) {
+			hr := req.HttpRequest
+			if point == "BL" {
+				c28cur.mu.Lock()
+				if t := c28cur.tr; t != nil {
+					t.mu.Lock()
+					t.parsed = append(t.parsed, hr.Method+" "+hr.URL.Path)
+					t.mu.Unlock()
+				}
+				c28cur.mu.Unlock()
+			}
+			switch c28verdictOf(hr.URL.Path, point) {
+			case "close":
+				return bfe_module.BfeHandlerClose, nil
+			case "finish":
+				return bfe_module.BfeHandlerFinish, nil
+			case "response":
+				res := h1resp(hr, 200, map[string]string{"Content-Length": "2", "X-Path": hr.URL.Path}, "mr")
+				return bfe_module.BfeHandlerResponse, res
+			case "redirect":
+				req.Redirect.Url = "/elsewhere"
+				req.Redirect.Code = 302
+				req.Redirect.Header = bfe_http.Header{"X-Path": []string{hr.URL.Path}}
+				return bfe_module.BfeHandlerRedirect, nil
+			}
+			return bfe_module.BfeHandlerGoOn, nil
+		}
+	}
+	resFilter := func(point string) func(req *bfe_basic.Request, res *bfe_http.Response) int {
+		return func(req *bfe_basic.Request, res *bfe_http.Response) int {
+			hr := req.HttpRequest
+			switch c28verdictOf(hr.URL.Path, point) {
+			case "finish":
+				return bfe_module.BfeHandlerFinish
+			case "redirect":
+				req.Redirect.Url = "/elsewhere"
+				req.Redirect.Code = 302
+				req.Redirect.Header = bfe_http.Header{"X-Path": []string{hr.URL.Path}}
+				return bfe_module.BfeHandlerRedirect
+			}
+			return bfe_module.BfeHandlerGoOn
+		}
+	}
+	must := func(err error) {
+		if err != nil {
+			panic(err)
+		}
+	}
+	cb := srv.CallBacks
+	must(cb.AddFilter(bfe_module.HandleBeforeLocation, reqFilter("BL")))
+	must(cb.AddFilter(bfe_module.HandleFoundProduct, reqFilter("FP")))
+	must(cb.AddFilter(bfe_module.HandleAfterLocation, reqFilter("AL")))
+	must(cb.AddFilter(bfe_module.HandleForward, func(req *bfe_basic.Request) int {
+		if c28verdictOf(req.HttpRequest.URL.Path, "FW") == "finish" {
+			return bfe_module.BfeHandlerFinish
+		}
+		return bfe_module.BfeHandlerGoOn
+	}))
+	must(cb.AddFilter(bfe_module.HandleReadResponse, resFilter("RR")))
+	must(cb.AddFilter(bfe_module.HandleRequestFinish, resFilter("RF")))
+}
+
+var c28verdicts = []string{
+	"BL.close", "BL.finish", "BL.response", "BL.redirect",
+	"FP.close", "FP.finish", "FP.response", "FP.redirect",
+	"AL.close", "AL.finish", "AL.response", "AL.redirect",
+	"FW.finish", "RR.finish", "RR.redirect", "RF.finish",
+}
+
+// c28execVerdict: sequences [P] V [F] where V is a request for which a module filter gives a
+// verdict, P and F are plain requests without verdict.
+func c28execVerdict(c *c28ctx, fam string, ch *vk.Chooser) {
+	vi := ch.Choose(len(c.syms) * len(c28verdicts))
+	if ch.Skipped {
+		return
+	}
+	shape := ch.Choose(4) // V ; V F ; P V ; P V F
+	if ch.Skipped {
+		return
+	}
+	vs := c.syms[vi/len(c28verdicts)]
+	vs.verdict = c28verdicts[vi%len(c28verdicts)]
+	var reqs []*c28req
+	plain := func(i int) bool {
+		s := c.plain[ch.Choose(len(c.plain))]
+		bl := c28behaviours(s, 1)
+		reqs = append(reqs, c.build(s, i, bl[0]))
+		return !ch.Skipped
+	}
+	if shape >= 2 && !plain(1) {
+		return
+	}
+	// the backend's behaviour only matters when the request can reach it (points FW.. are after
+	// the balancer; RR/RF after the round trip)
+	bl := c28behaviours(vs, 1)
+	if strings.HasPrefix(vs.verdict, "RR") || strings.HasPrefix(vs.verdict, "RF") {
+		bl = c28behaviours(vs, 3)
+	}
+	b := bl[ch.Choose(len(bl))]
+	if ch.Skipped {
+		return
+	}
+	reqs = append(reqs, c.build(vs, len(reqs)+1, b))
+	if (shape == 1 || shape == 3) && !plain(len(reqs)+1) {
+		return
+	}
+	c28deliver(c, fam, ch, reqs)
 }
 
 func (t *c28transport) RoundTrip(req *bfe_http.Request) (*bfe_http.Response, error) {
@@ -466,11 +617,12 @@ type c28ctx struct {
 	samples  int
 	cache    map[string]*c28req
 	lastKey, lastStream string
+	plain    []c28sym // family "verdict": the requests around the verdict request
 }
 
 // build returns the (immutable, cached) rendering of a request.
 func (c *c28ctx) build(s c28sym, i int, b c28beh) *c28req {
-	k := s.name + "|" + strconv.Itoa(i) + "|" + b.name
+	k := s.name + "~" + s.verdict + "|" + strconv.Itoa(i) + "|" + b.name
 	if q, ok := c.cache[k]; ok {
 		return q
 	}
@@ -503,7 +655,6 @@ func c28behaviours(s c28sym, limit int) []c28beh {
 }
 
 func c28exec(c *c28ctx, fam string, ch *vk.Chooser) {
-	r := c.r
 	// ---- choose the scenario (all choices up front, in the harness goroutine)
 	var reqs []*c28req
 	follower := c28symsAll[c28symIdx("G")]
@@ -544,7 +695,12 @@ func c28exec(c *c28ctx, fam string, ch *vk.Chooser) {
 	if len(reqs) == 0 {
 		return
 	}
-	// ---- choose the delivery plan
+	c28deliver(c, fam, ch, reqs)
+}
+
+// c28deliver chooses the delivery plan for the request sequence and runs the execution.
+func c28deliver(c *c28ctx, fam string, ch *vk.Chooser, reqs []*c28req) {
+	r := c.r
 	var bounds, cuts []int
 	off := 0
 	for _, q := range reqs {
@@ -616,6 +772,14 @@ func c28exec(c *c28ctx, fam string, ch *vk.Chooser) {
 func c28class(reqs []*c28req) string {
 	cls := "plain"
 	for _, q := range reqs {
+		if q.verdict != "" {
+			// module verdict: class = verdict kind + body kind of the refused/answered request
+			body := "no-body"
+			if q.hasBody {
+				body = "body"
+			}
+			return "verdict-" + q.verdict[strings.Index(q.verdict, ".")+1:] + "/" + body
+		}
 		switch q.sym {
 		case "PXhex", "PXcrlf", "EXhex":
 			return "chunked-body-error"
@@ -669,6 +833,9 @@ func c28run(c *c28ctx, id, scen string, reqs []*c28req, plan c28plan) {
 		methods = append(methods, q.method)
 	}
 	panics0 := c.srv.serverStatus.ProxyState.PanicClientConnServe.Get()
+	c28cur.mu.Lock()
+	c28cur.tr = tr
+	c28cur.mu.Unlock()
 	// executions are independent: forget the failures earlier executions charged to the backend
 	// (otherwise it is marked down after FailNum errors and a health-check goroutine starts)
 	for _, b := range c.srv.balTable.VerifBackends() {
@@ -707,25 +874,32 @@ func c28run(c *c28ctx, id, scen string, reqs []*c28req, plan c28plan) {
 				flag(7, fmt.Sprintf("response %d (status %d) has no framing and is followed by another response; out=%q", k+1, finals[k].status, c28tail(out)))
 			}
 		}
-		// (no-parse) the backend view is an in-order sub-sequence of the requests really sent
-		j := 0
-		for _, s := range seen {
-			ok := false
-			for j < len(reqs) {
-				q := reqs[j]
-				j++
-				if q.method+" "+q.path == s {
-					ok = true
+		// (no-parse) what bfe parsed (module view, verdict server) and what it forwarded (backend
+		// view) are in-order sub-sequences of the requests really sent
+		views := []struct {
+			who  string
+			list []string
+		}{{"backend saw", seen}, {"bfe parsed and handed to its modules", tr.Parsed()}}
+		for _, v := range views {
+			j := 0
+			for _, s := range v.list {
+				ok := false
+				for j < len(reqs) {
+					q := reqs[j]
+					j++
+					if q.method+" "+q.path == s {
+						ok = true
+						break
+					}
+				}
+				if !ok {
+					rule := 1
+					if strings.Contains(s, "/smuggled") {
+						rule = 0
+					}
+					flag(rule, fmt.Sprintf("%s %q which the client never sent as a request (view %q)", v.who, s, v.list))
 					break
 				}
-			}
-			if !ok {
-				rule := 1
-				if strings.Contains(s, "/smuggled") {
-					rule = 0
-				}
-				flag(rule, fmt.Sprintf("backend saw %q which the client never sent as a request (backend view %q)", s, seen))
-				break
 			}
 		}
 		// (order) the k-th final response belongs to the k-th request
@@ -853,34 +1027,52 @@ func TestVerifC28(t *testing.T) {
 	srv.MaxHeaderBytes = c28maxHeader // == Config.Server.MaxHeaderBytes = 2048 (see InitConfig)
 	srv.Config.Server.MaxHeaderBytes = c28maxHeader
 
+	// second server: same configuration plus one filter at every request-processing callback
+	// point (module verdicts as a source of request-boundary events); only family "verdict" uses it
+	srvV := h1newServer(dir+"/c28v", h1defaultSpec())
+	srvV.MaxHeaderBytes = c28maxHeader
+	srvV.Config.Server.MaxHeaderBytes = c28maxHeader
+	c28installFilters(srvV)
+
 	type fam struct {
 		name     string
 		syms     []c28sym
 		maxN     int
 		cutMode  int
 		behLimit []int
+		plain    []c28sym // non-nil: family of module verdicts (server srvV)
 	}
 	quickSyms := c28symsAll[:c28symIdx("BIG0")]
 	var fams []fam
 	if !r.Thorough() {
 		fams = []fam{
 			// every quick symbol, sequences <= 2, all behaviours of the first request, P / SW / every single cut
-			{"full2", quickSyms, 2, 1, []int{0, 2}},
+			{"full2", quickSyms, 2, 1, []int{0, 2}, nil},
 			// core symbols, sequences <= 3, pipelined and stop-and-wait
-			{"core3", c28pick("G", "H", "PC", "PK", "EC", "PXhex", "MF"), 3, 0, []int{3, 3, 3}},
+			{"core3", c28pick("G", "H", "PC", "PK", "EC", "PXhex", "MF"), 3, 0, []int{3, 3, 3}, nil},
+			// [P] V [F]: V = {GET, POST CL, POST chunked, Expect} x 16 module verdicts; P, F plain
+			{"verdict", c28pick("G", "PC", "PK", "EC"), 3, 1, nil, c28pick("G", "PC")},
 		}
 	} else {
 		fams = []fam{
-			{"full2", c28symsAll, 2, 2, []int{0, 0}},
-			{"full3", quickSyms, 3, 0, []int{3, 3, 3}},
-			{"core3", c28pick("G", "H", "PC", "PK", "EC", "EK", "PKT", "PXhex", "PXext", "MF", "E0"), 3, 1, []int{4, 4, 4}},
+			{"verdict", c28pick("G", "PC", "PK", "EC", "EK", "H", "HB", "P10K"), 3, 2, nil, c28pick("G", "PC", "PK", "EC", "H")},
+			{"full2", c28symsAll, 2, 2, []int{0, 0}, nil},
+			{"full3", quickSyms, 3, 0, []int{3, 3, 3}, nil},
+			{"core3", c28pick("G", "H", "PC", "PK", "EC", "EK", "PKT", "PXhex", "PXext", "MF", "E0"), 3, 1, []int{4, 4, 4}, nil},
 		}
 	}
 	for _, f := range fams {
-		c := &c28ctx{t: t, r: r, srv: srv, syms: f.syms, maxN: f.maxN, cutMode: f.cutMode, behLimit: f.behLimit, cache: map[string]*c28req{}}
+		c := &c28ctx{t: t, r: r, srv: srv, syms: f.syms, maxN: f.maxN, cutMode: f.cutMode, behLimit: f.behLimit, cache: map[string]*c28req{}, plain: f.plain}
+		if f.plain != nil {
+			c.srv = srvV
+		}
 		complete := true
 		n := vk.ExploreSharded(r, f.name, 2, -1, func(ch *vk.Chooser) {
-			c28exec(c, f.name, ch)
+			if c.plain != nil {
+				c28execVerdict(c, f.name, ch)
+			} else {
+				c28exec(c, f.name, ch)
+			}
 		}, func() bool {
 			if r.Expired("c28 " + f.name) {
 				complete = false
